@@ -152,6 +152,7 @@ CHECK = store.StoreCheck(
     depths={"quick": {"U9a": 3, "U9b": 2, "U8": 3, "U6": 2, "U17": 2, "U10": 3},
             "thorough": {"U9a": 4, "U9b": 3, "U8": 4, "U6": 3, "U17": 3, "U10": 4}},
     plen={"quick": 1, "thorough": 1},
+    linear={"quick": {"U10": 2, "U8": 2, "U9a": 2}, "thorough": {"U10": 3, "U8": 3, "U9a": 3, "U9b": 2, "U6": 2}},
     rule="state invariant over the full forward walk of the LMDB double's keyspace after every transition: keys partition into primary "
          "0x00|id, secondary prefix|value|00|ts|00|id and exactly one sentinel 0xee; every record has each expected key (created_at, kind, "
          "author, author+kind, every indexable tag) and every secondary key is one of its record's expected keys. Universes: those of "
@@ -258,6 +259,8 @@ def run_case(case):
         return run_faults(case)
     r = _base_run_case(case)
     backend, un, prefix, depth = case
+    if prefix and prefix[0] == "@linear":
+        return r
     uni = CHECK.U()[un]
     sess = seq.session(backend)
     w = sess.w
